@@ -40,6 +40,8 @@ theorem evalFml_congr (e : Fml) (env env' : Nat → EV) (h : ∀ j, j ∈ e.refs
       List.map_congr_left fun j hj => by rw [h j (by simpa [Fml.refs] using hj)]
     simp [evalFml, this]
   | add a b => simp [evalFml, h a (by simp [Fml.refs]), h b (by simp [Fml.refs])]
+  | sub a b => simp [evalFml, h a (by simp [Fml.refs]), h b (by simp [Fml.refs])]
+  | eq a b => simp [evalFml, h a (by simp [Fml.refs]), h b (by simp [Fml.refs])]
   | sum js =>
     have : (js.map fun j => (env j).flat) = (js.map fun j => (env' j).flat) :=
       List.map_congr_left fun j hj => by rw [h j (by simpa [Fml.refs] using hj)]
